@@ -115,6 +115,46 @@ def writer_tokens(ctx: Any, f: FuncInfo) -> List[Tuple[str, str]]:
     return toks
 
 
+def bitmap_block(ctx: Any) -> Tuple[Optional[str], bool]:
+    """The NSEC bitmap reader, per block: (the local that holds the block-length byte -- the byte read at cursor + 1 --,
+    whether the cursor advances by exactly 2 + that length).  The cursor is `self.offset` or a local bound to it; the advance
+    may be spelled `self.offset += 2 + n` or `self.offset = <cursor + 2 + n>` through any locals."""
+    from .common import expand as _xp_b
+
+    prog = ctx.prog
+    rb = prog.func(INC + '._read_bitmap')
+    me = rb.params[0]
+
+    def sym(x: ast.AST) -> Optional[str]:
+        if self_attr(x, me) == 'offset':
+            return 'CUR'
+        if isinstance(x, ast.Subscript) and not isinstance(x.slice, ast.Slice):
+            try:
+                pi = lf.poly(prog, rb.module, x.slice, sym)
+            except lf.NotLinear:
+                return None
+            if pi == lf.parse_poly('CUR + 1'):
+                return 'L'
+            if pi == lf.parse_poly('CUR'):
+                return 'W'
+        return None
+
+    length_l = None
+    for st in walk_local_ordered(rb.node):
+        if isinstance(st, ast.Assign) and isinstance(st.targets[0], ast.Name) and isinstance(st.value, ast.Subscript) and not isinstance(st.value.slice, ast.Slice):
+            if sym(_xp_b(rb, st.value)) == 'L':
+                length_l = st.targets[0].id
+    adv_ok = False
+    stores = [st for st in walk_local_ordered(rb.node) if (isinstance(st, ast.AugAssign) and self_attr(st.target, me) == 'offset') or (isinstance(st, ast.Assign) and self_attr(st.targets[0], me) == 'offset')]
+    if len(stores) == 1:
+        try:
+            pv = lf.poly(prog, rb.module, _xp_b(rb, stores[0].value), sym)
+            adv_ok = pv == lf.parse_poly('2 + L' if isinstance(stores[0], ast.AugAssign) else 'CUR + 2 + L') and (not isinstance(stores[0], ast.AugAssign) or isinstance(stores[0].op, ast.Add))
+        except lf.NotLinear:
+            adv_ok = False
+    return length_l, adv_ok
+
+
 def reader_arms(ctx: Any) -> Dict[int, Tuple[str, List[Tuple[str, str]]]]:
     """type constant -> (constructed class, rdata (token, field) sequence in evaluation order)."""
     prog = ctx.prog
@@ -288,26 +328,7 @@ def layout(ctx: Any) -> List[Ob]:
     # NSEC bitmap reader: per window  U8 window, U8 length, then `length` bytes; advances 2 + length
     rb = prog.func(INC + '._read_bitmap')
     me = rb.params[0]
-    lens = [st for st in walk_local_ordered(rb.node) if isinstance(st, ast.AugAssign) and self_attr(st.target, me) == 'offset']
-    good = False
-    if len(lens) == 1:
-        try:
-            defs = {}
-            for st in walk_local_ordered(rb.node):
-                if isinstance(st, ast.Assign) and isinstance(st.targets[0], ast.Name):
-                    defs[st.targets[0].id] = st.value
-            p = lf.poly(prog, rb.module, lens[0].value, lambda x: x.id if isinstance(x, ast.Name) else None)
-            lname = [k[0][0] for k in p if k]
-            good = p.get((), 0) == 2 and len(lname) == 1 and p[((lname[0], 1),)] == 1
-            ld = defs.get(lname[0]) if lname else None
-            # the length byte is the second byte of the window block
-            if good and isinstance(ld, ast.Subscript):
-                idx = ld.slice
-                idx = defs.get(idx.id, idx) if isinstance(idx, ast.Name) else idx
-                q = lf.poly(prog, rb.module, idx, lambda x: x.id if isinstance(x, ast.Name) else None)
-                good = q.get((), 0) == 1
-        except lf.NotLinear:
-            good = False
+    good = bitmap_block(ctx)[1]
     obs.append(ob(R, rb, 'self.offset += 2 + bitmap_length', 'the bitmap reader consumes window byte, length byte and exactly `length` bitmap bytes per block', good))
     # framing: question and RR
     out = prog.cls(OUT)
